@@ -1,6 +1,6 @@
 """C12 AES generators and fingerprint match FIPS-197 rounds in software and hardware."""
 import astq
-from rules import aes
+from rules import aes, aeshw
 
 LEVEL = 'other'
 TECHNIQUE = 'proof by byte-wise decomposition of the table-driven round against FIPS-197 computed from first principles (16 x 256 contributions per function, exhaustive), structural extraction of per-lane round patterns compared with the lane diagrams and hex keys of the specification'
@@ -20,3 +20,7 @@ def run(ctx, R):
     aes.rule_patterns(ctx, R, F)
     aes.rule_fused(ctx, R, F)
     aes.rule_asm(ctx, R, F)
+    aes.rule_cover(ctx, R, F)
+    aeshw.rule_lanes(ctx, R)
+    aeshw.rule_hw_wrap(ctx, R)
+    aeshw.rule_cfg_cover(ctx, R)
